@@ -93,6 +93,12 @@ func c01Progs() map[string]*Prog {
 		{Name: "c", Deps: []Ref{D("d")}, Cmds: []C{P()}},
 		{Name: "d", Cmds: []C{P()}},
 	}}
+	m["ignoring-task-with-failing-dep"] = &Prog{Tasks: []*T{
+		{Name: "root", Deps: []Ref{D("a")}, Cmds: []C{P()}},
+		{Name: "a", IgnoreError: true, Deps: []Ref{D("b"), D("c")}, Cmds: []C{P(), P()}},
+		{Name: "b", Cmds: []C{P(), F()}},
+		{Name: "c", Cmds: []C{P()}},
+	}}
 	m["nested-call-in-dep"] = &Prog{Tasks: []*T{
 		{Name: "root", Deps: []Ref{D("a"), D("b")}, Cmds: []C{P()}},
 		{Name: "a", Cmds: []C{P(), Call("c"), P()}},
